@@ -16,18 +16,36 @@ from fractions import Fraction
 import math
 
 
-class NF(object):
-  __slots__ = ("terms", "_hash")
+import weakref
 
-  def __init__(self, terms=None):
+_INTERN = weakref.WeakValueDictionary()
+
+
+class NF(object):
+  """Interned: structurally equal NFs are the same object, so equality and
+  hashing are O(1) even for deeply shared (DAG-like) expressions."""
+  __slots__ = ("terms", "_hash", "_key", "__weakref__")
+
+  def __new__(cls, terms=None):
     # terms: dict monomial(tuple of (atom, exp) sorted by repr) -> Fraction
     t = {}
     if terms:
       for m, c in terms.items():
         if c != 0:
           t[m] = c
-    self.terms = t
-    self._hash = None
+    key = frozenset(t.items())
+    obj = _INTERN.get(key)
+    if obj is not None:
+      return obj
+    obj = object.__new__(cls)
+    obj.terms = t
+    obj._key = key
+    obj._hash = hash(key)
+    _INTERN[key] = obj
+    return obj
+
+  def __init__(self, terms=None):
+    pass
 
   # -- construction ----------------------------------------------------
   @staticmethod
@@ -154,45 +172,50 @@ class NF(object):
     return r
 
   def __eq__(self, other):
+    if self is other:
+      return True
     if not isinstance(other, NF):
       try:
         other = to_nf(other)
       except TypeError:
         return NotImplemented
-    return self.terms == other.terms
+    return self is other
 
   def __ne__(self, other):
     r = self.__eq__(other)
     return r if r is NotImplemented else not r
 
   def __hash__(self):
-    if self._hash is None:
-      self._hash = hash(frozenset(self.terms.items()))
     return self._hash
 
   def __repr__(self):
     return show(self)
 
   # -- substitution ------------------------------------------------------
-  def subst(self, mapping, simplify=None):
+  def subst(self, mapping, simplify=None, _memo=None):
     """Replace atoms by NFs (mapping: atom -> NF), recursively inside
     application arguments; `simplify(fname, attrs, args)` may fold
     applications whose arguments became constant."""
+    memo = _memo if _memo is not None else {}
+    r = memo.get(self)
+    if r is not None:
+      return r
     out = NF()
     for m, c in self.terms.items():
       term = NF.const(c)
       for a, e in m:
-        term = term * (_subst_atom(a, mapping, simplify) ** e)
+        term = term * (_subst_atom(a, mapping, simplify, memo) ** e)
       out = out + term
+    memo[self] = out
     return out
 
 
-def _subst_atom(a, mapping, simplify):
+def _subst_atom(a, mapping, simplify, memo):
   if a in mapping:
     return to_nf(mapping[a])
   if a[0] == "app":
-    new_args = tuple(arg.subst(mapping, simplify) if isinstance(arg, NF)
-                     else arg for arg in a[3])
+    new_args = tuple(arg.subst(mapping, simplify, memo)
+                     if isinstance(arg, NF) else arg for arg in a[3])
     if new_args != a[3]:
       if simplify is not None:
         r = simplify(a[1], a[2], new_args)
@@ -214,8 +237,20 @@ def to_nf(v):
   raise TypeError("cannot convert %r to NF" % (v,))
 
 
+_AKEYS = {}
+
+
 def _akey(a):
-  return repr(a)
+  """Deterministic, cheap ordering key of an atom (never a deep repr)."""
+  if a[0] == "x":
+    return (0, "x", 0)
+  if a[0] == "sym":
+    return (1, str(a[1]), 0)
+  # applications: name, attrs, then the (cached) hashes of the argument NFs;
+  # hashes of interned NFs derive from Fractions/strings only, so the order
+  # is reproducible within a run, and monomial identity does not depend on
+  # it (monomials are compared as sorted tuples built with the same key)
+  return (2, str(a[1]) + str(a[2]), hash(a))
 
 
 def _mul_mono(m1, m2):
@@ -299,7 +334,15 @@ def _show_frac(c):
       c.numerator, c.denominator)
 
 
-def show_atom(a):
+class _Budget(object):
+  def __init__(self, n):
+    self.n = n
+
+
+def show_atom(a, budget=None):
+  budget = budget or _Budget(4000)
+  if budget.n <= 0:
+    return "..."
   if a[0] == "x":
     return "x"
   if a[0] == "sym":
@@ -308,19 +351,37 @@ def show_atom(a):
     attrs = ""
     if a[2]:
       attrs = "{" + ",".join(str(t) for t in a[2]) + "}"
+    budget.n -= len(a[1]) + 2
     return "%s%s[%s]" % (a[1], attrs, ", ".join(
-        show(arg) if isinstance(arg, NF) else str(arg) for arg in a[3]))
+        _show(arg, budget) if isinstance(arg, NF) else str(arg)
+        for arg in a[3]))
   return repr(a)
 
 
 def show(nf, limit=2000):
+  s = _show(nf, _Budget(limit))
+  if len(s) > limit:
+    s = s[:limit] + "..."
+  return s
+
+
+def _mono_key(mc):
+  m = mc[0]
+  return (len(m), tuple((a[0], a[1] if len(a) > 1 and isinstance(a[1], str)
+                         else "", e) for a, e in m), mc[1])
+
+
+def _show(nf, budget):
   if not nf.terms:
     return "0"
+  if budget.n <= 0:
+    return "..."
   parts = []
-  for m, c in sorted(nf.terms.items(), key=lambda mc: repr(mc[0])):
+  for m, c in sorted(nf.terms.items(), key=_mono_key):
     fs = []
     for a, e in m:
-      s = show_atom(a)
+      s = show_atom(a, budget)
+      budget.n -= len(s) if len(s) < 40 else 40
       fs.append(s if e == 1 else "%s^%d" % (s, e))
     if not fs:
       parts.append(_show_frac(c))
@@ -330,10 +391,7 @@ def show(nf, limit=2000):
       parts.append("-" + "*".join(fs))
     else:
       parts.append(_show_frac(c) + "*" + "*".join(fs))
-  s = " + ".join(parts).replace("+ -", "- ")
-  if len(s) > limit:
-    s = s[:limit] + "..."
-  return s
+  return " + ".join(parts).replace("+ -", "- ")
 
 
 def log2_exact(c):
